@@ -26,6 +26,21 @@ def eq(ctx, rule="C18.fields"):
         ok = reads.get(a, 0) >= 2
         ctx.ob(rule, f.site, ok, "" if ok else f"Program.__eq__ does not compare the {what} (`{a}`) of both commands",
                role=f"field:{a}", line=f.node.lineno)
+    # ... each taken from the OPERATION of each of the two commands of the pair (the Command has no dagger / p / __class__ of its own)
+    lp0 = [n for n in walk_no_nested(f.node) if isinstance(n, ast.For)]
+    cmdvars = [x.id for x in ast.walk(lp0[0].target) if isinstance(x, ast.Name)] if lp0 else []
+    if len(cmdvars) == 2:
+        for a in ("__class__", "p", "dagger"):
+            bases = set()
+            for n in walk_no_nested(f.node):
+                if isinstance(n, ast.Attribute) and n.attr == a:
+                    bases.add(dotted(n.value))
+                if isinstance(n, ast.Call) and dotted(n.func) == "getattr" and len(n.args) >= 2 and isinstance(n.args[1], ast.Constant) \
+                        and n.args[1].value == a:
+                    bases.add(dotted(n.args[0]))
+            ok = {f"{cmdvars[0]}.op", f"{cmdvars[1]}.op"} <= bases
+            ctx.ob(rule, f.site, ok, "" if ok else f"`{a}` is not read from the operation of BOTH commands (read from {sorted(b for b in bases if b)}): "
+                   "one side of the comparison is a constant", role=f"field-both-ops:{a}", line=f.node.lineno)
     # modes are compared as ordered sequences (zip over .reg), not as sets
     ordered = any(isinstance(n, ast.Call) and dotted(n.func) == "zip" and
                   all((dotted(a) or "").endswith(".reg") for a in n.args) and len(n.args) == 2 for n in walk_no_nested(f.node))
@@ -219,6 +234,11 @@ def relation(ctx, rule="C18.relation"):
     ctx.ob(rule, g.site, not rm, "" if not rm else f"`{ast.unparse(rm[0])[:50]}` drops commands from the graphs before they are "
            "compared: ordering across the dropped commands is lost", role="no-node-removal",
            line=(rm[0].lineno if rm else g.node.lineno))
+    # parameters that cannot be evaluated make the comparison fail loudly: no handler in program_equivalence swallows the error
+    hs = [h for n in walk_no_nested(g.node) if isinstance(n, ast.Try) for h in n.handlers]
+    ctx.ob(rule, g.site, not hs, "" if not hs else f"program_equivalence catches `{ast.unparse(hs[0].type)[:30] if hs[0].type else 'everything'}`: "
+           "operations whose parameters have no value are compared as if their parameters were equal", role="no-swallowed-errors",
+           line=(hs[0].lineno if hs else g.node.lineno))
     iso = [n for n in walk_no_nested(g.node) if isinstance(n, ast.Call) and (dotted(n.func) or "").endswith("is_isomorphic")]
     ok = bool(iso) and (len(iso[0].args) >= 3 and dotted(iso[0].args[2]) == "node_match" or
                         any(k.arg == "node_match" and dotted(k.value) == "node_match" for k in iso[0].keywords))
